@@ -39,21 +39,22 @@ type Diag struct {
 }
 
 type Ev struct {
-	Op        string  `json:"op"`
-	Method    string  `json:"method,omitempty"`
-	URI       string  `json:"uri,omitempty"`
-	Lang      string  `json:"lang,omitempty"`
-	Text      *string `json:"text,omitempty"`
-	Version   int32   `json:"version,omitempty"`
-	Line      uint32  `json:"line,omitempty"`
-	Char      uint32  `json:"char,omitempty"`
-	Answer    []Loc   `json:"answer,omitempty"`
-	NilAnswer bool    `json:"nil_answer,omitempty"`
-	Diags     []Diag  `json:"diags,omitempty"`
-	Detail    string  `json:"detail,omitempty"`
-	Par       []Ev    `json:"par,omitempty"` // events delivered concurrently (op = "par")
-	During    *Ev     `json:"during,omitempty"` // delivered while the At-th outgoing call of this event is in progress
-	At        int     `json:"at,omitempty"`
+	Op        string   `json:"op"`
+	Method    string   `json:"method,omitempty"`
+	URI       string   `json:"uri,omitempty"`
+	Lang      string   `json:"lang,omitempty"`
+	Text      *string  `json:"text,omitempty"`
+	Version   int32    `json:"version,omitempty"`
+	Line      uint32   `json:"line,omitempty"`
+	Char      uint32   `json:"char,omitempty"`
+	Answer    []Loc    `json:"answer,omitempty"`
+	NilAnswer bool     `json:"nil_answer,omitempty"`
+	Diags     []Diag   `json:"diags,omitempty"`
+	Detail    string   `json:"detail,omitempty"`
+	Details   []string `json:"details,omitempty"` // one completion detail per answer item
+	Par       []Ev     `json:"par,omitempty"`     // events delivered concurrently (op = "par")
+	During    *Ev      `json:"during,omitempty"`  // delivered while the At-th outgoing call of this event is in progress
+	At        int      `json:"at,omitempty"`
 }
 
 type Item struct {
@@ -114,10 +115,11 @@ func loc(uri protocol.DocumentURI, r protocol.Range) Loc {
 
 type fakeServer struct {
 	protocol.Server
-	rec    *recorder
-	answer []Loc
-	isNil  bool
-	detail string
+	rec     *recorder
+	answer  []Loc
+	isNil   bool
+	detail  string
+	details []string
 }
 
 func (f *fakeServer) pos(m string, td protocol.TextDocumentPositionParams) {
@@ -183,11 +185,15 @@ func (f *fakeServer) Completion(_ context.Context, p *protocol.CompletionParams)
 		return nil, nil
 	}
 	cl := &protocol.CompletionList{}
-	for _, l := range f.answer {
+	for i, l := range f.answer {
 		r := rng(l)
 		item := protocol.CompletionItem{Label: "item", TextEdit: &protocol.TextEdit{Range: r, NewText: "x"}}
-		if f.detail != "" {
-			item.Detail = f.detail
+		detail := f.detail
+		if len(f.details) > 0 {
+			detail = f.details[i%len(f.details)]
+		}
+		if detail != "" {
+			item.Detail = detail
 			item.AdditionalTextEdits = []protocol.TextEdit{{Range: protocol.Range{Start: protocol.Position{Line: 3}, End: protocol.Position{Line: 3}}, NewText: "\t\"generated-file-edit\"\n"}}
 		}
 		cl.Items = append(cl.Items, item)
@@ -389,7 +395,7 @@ func (w *world) apply(e Ev) (ret Item) {
 		}
 		err = w.cl.ShowMessage(ctx, &protocol.ShowMessageParams{Type: 1, Message: text})
 	case "req":
-		w.fs.answer, w.fs.isNil, w.fs.detail = e.Answer, e.NilAnswer, e.Detail
+		w.fs.answer, w.fs.isNil, w.fs.detail, w.fs.details = e.Answer, e.NilAnswer, e.Detail, e.Details
 		p := tdp(e)
 		switch e.Method {
 		case "hover":
